@@ -37,9 +37,10 @@ SEPS = [".", "/", "::", "->", "__"]
 # key segments; includes the empty string, non-ASCII, and segments sharing characters with the
 # multi-character separators (those make some paths ambiguous -> 'corner' stream)
 POOL = ["a", "b", "c", "id", "name", "friend", "result", "x1", "", "", "ключ", "名前", "é", "a b", "0",
-        "deleted_at", "k-", ">z", "q:", ":", "_u", "v_", "-", "_", "A", "ß"]
+        "deleted_at", "k-", ">z", "q:", ":", "_u", "v_", "-", "_", "A", "ß",
+        " a", "a ", " ", "\ta", "a\n", "A ", "\u00a0x", "C:\\", "e\u0301", "%s", "{0}"]      # edge whitespace, backslash, format text
 SAFE = ["a", "b", "c", "id", "name", "friend", "result", "x1", "", "", "ключ", "名前", "é", "a b", "0",
-        "deleted_at", "A", "ß"]
+        "deleted_at", "A", "ß", " a", "a ", " ", "\ta", "a\n", "\u00a0x", "C:\\", "e\u0301", "%s", "{0}"]
 
 
 # ------------------------------------------------------------------ payloads
